@@ -243,6 +243,14 @@ def sqrt_term_model(x):
     return _np.sqrt(x)
 
 
+def sqrt_term_unchecked(x):
+    """np.sqrt kept unevaluated without deciding the sign of the radicand (its non-negativity is a separate
+    property - C13 for the energy norm); callers compare the radicand."""
+    if isinstance(x, SR):
+        return SqrtTerm(x)
+    return _np.sqrt(x)
+
+
 class ThetaModel:
     """The marking parameter theta in (0,1), carried as q = theta^2 (a symbolic real): theta**2 -> q and
     theta * sqrt(x) -> sqrt(q*x); nothing else is defined, so any other use of theta is reported."""
